@@ -6,3 +6,4 @@ import Helm.Props.C14
 #print axioms Helm.Props.C14.skip_only_by_flag
 #print axioms Helm.Props.C14.all_satisfied_passes
 #print axioms Helm.Props.C14.upgrade_install_forwards_skip_flag
+#print axioms Helm.Props.C14.skip_flag_bound
